@@ -2,12 +2,14 @@
 #![allow(clippy::all)]
 mod constraint;
 mod lifecycle;
+mod movements;
 
 fn main() {
     let (module, mode, args) = vh::start();
     match module.as_str() {
         "constraint" => constraint::run(&mode, &args),
         "lifecycle" => lifecycle::run(&mode, &args),
+        "movements" => movements::run(&mode, &args),
         m => vh::unknown(m),
     }
 }
